@@ -288,6 +288,26 @@ def _k4(ctx: Context, ss, ser, des) -> None:
                     up = x.slice.upper
                     if isinstance(up, ast.BinOp) and isinstance(up.op, ast.Add) and _u(up.left) == off:
                         K_slice = ctx.const(ef, up.right, None)
+                    else:
+                        # the end of the fragment kept in a local, possibly clamped to the length (`end = offset + K if .. else total`):
+                        # by value - every alternative is `offset + K` (one K) or the length of what is fragmented
+                        hn = next((m for m in ecfg.nodes if m.ast is not None and any(y is x for y in ast.walk(m.ast))), None)
+                        widths, other = set(), False
+                        if hn is not None:
+                            def _alts_(t_):
+                                return [a_ for z_ in t_[1] for a_ in _alts_(z_)] if t_[0] == "phi" else [t_]
+
+                            for a_ in _alts_(strip_sites(T.of(ecfg, hn, up))):
+                                if a_[0] == "add" and len(a_[1]) == 2 and any(p_[0] == "const" and isinstance(p_[1], int) for p_ in a_[1]) and any(p_[0] == "loopvar" or p_[0] == "each" or p_[0] not in ("const",) for p_ in a_[1]):
+                                    widths.add(next(p_[1] for p_ in a_[1] if p_[0] == "const"))
+                                elif a_[0] == "call" and a_[1] == ("glob", "len"):
+                                    pass
+                                else:
+                                    other = True
+                        if len(widths) == 1 and not other:
+                            K_slice = next(iter(widths))
+                        else:
+                            K_slice = NotImplemented
     if K_step is None:
         # the consuming form: `while len(v) > K: emit v[:K]; v = v[K:]` and the remainder after the loop
         for n in ecfg.nodes:
@@ -329,7 +349,12 @@ def _k4(ctx: Context, ss, ser, des) -> None:
                         ck.check("C16.K4", wit is None, "encoder: after `while len(v) >= K` the last item is written only when something is left", f"{ctx.fkey(ef)}:trailing-empty-fragment",
                                  f"TLVStruct.encode splits fragments off while len >= {K_test} and then writes the rest unconditionally: a value whose length is an exact multiple of "
                                  f"{K_test} gets a trailing zero-length item (not the canonical encoding; the value is no longer `every fragment but the last is full`)", ctx.loc(ef, tl))
-    if K_step is None and K_slice is None:
+    if K_slice is NotImplemented:
+        ck.unknown("C16.K4", "TLVStruct.encode: the end of the fragment slice is not `offset + K` (nor that clamped to the length) in a form that is read: slice width not decided", ef.loc())
+        K_slice = None
+        if K_step is not None:
+            ck.check("C16.K4", K_step == 255, "encoder: chunk step = 255", f"{ctx.fkey(ef)}:chunk", f"TLVStruct.encode chunks by step {K_step} (TLV8: 255)", ef.loc())
+    elif K_step is None and K_slice is None:
         ck.unknown("C16.K4", "TLVStruct.encode: the fragmentation loop was not recognised (neither range(0, len, K) nor while len > K): fragment size not decided", ef.loc())
     else:
         ck.check("C16.K4", K_step == K_slice == 255, "encoder: chunk step = slice width = 255", f"{ctx.fkey(ef)}:chunk", f"TLVStruct.encode chunks by step {K_step} / slice width {K_slice} (TLV8: 255)", ef.loc())
@@ -340,13 +365,17 @@ def _k4(ctx: Context, ss, ser, des) -> None:
     for n in icfg.nodes:
         if n.kind == "test":
             cp = compare_parts(n.exprs[0])
-            if cp and cp[1] == "Eq" and isinstance(ctx.const(itf, cp[2], None), int) and any(x[0] == "loop" for x in n.frames) and n.ast is not None:
+            if cp and cp[1] in ("Eq", "Gt", "GtE") and isinstance(ctx.const(itf, cp[2], None), int) and any(x[0] == "loop" for x in n.frames) and n.ast is not None:
                 # the inner while's condition
-                for fr in n.frames:
-                    pass
                 if any(isinstance(w, ast.While) and any(n.exprs[0] is y for y in ast.walk(w.test)) for w in ast.walk(itf.node)):
-                    trig = ctx.const(itf, cp[2], None)
-    ck.check("C16.K4", trig == 255 and K_step in (255, None), "decoder: a value continues exactly after a 255-byte fragment", f"{ctx.fkey(itf)}:continuation", f"tlv_iterator continues a value when length == {trig}; the encoder fragments at {K_step}", itf.loc())
+                    k_ = ctx.const(itf, cp[2], None)
+                    # the length is a byte (0..255): `> 254` / `>= 255` single out 255 just as `== 255` does; a lower threshold
+                    # continues after fragments that are not full
+                    trig = k_ if cp[1] == "Eq" else 255 if (cp[1], k_) in (("Gt", 254), ("GtE", 255)) else f"{'>' if cp[1] == 'Gt' else '>='} {k_}"
+    if trig is None:
+        ck.unknown("C16.K4", "tlv_iterator: the continuation loop is not driven by a comparison of the length with a constant in its own condition (a flag?): the trigger is not decided", itf.loc())
+    else:
+        ck.check("C16.K4", trig == 255 and K_step in (255, None), "decoder: a value continues exactly after a 255-byte fragment", f"{ctx.fkey(itf)}:continuation", f"tlv_iterator continues a value when length == {trig}; the encoder fragments at {K_step}", itf.loc())
     # declaration order: for f in fields(self)
     order = any(n.kind == "for_iter" and isinstance(n.ast.iter, ast.Call) and ctx.resolve_name(ef, n.ast.iter.func) == "dataclasses.fields" and _u(n.ast.iter.args[0]) == "self" for n in ecfg.nodes)
     ck.check("C16.K4", order, "fields are emitted in declaration order (dataclasses.fields(self))", f"{ctx.fkey(ef)}:order", "TLVStruct.encode no longer iterates dataclasses.fields(self)", ef.loc())
@@ -522,6 +551,62 @@ def _t1_iterator(ctx: Context) -> None:
     def L_at(n):
         return A.var(n, lenv)
 
+    # ---- where the length variable is known to be 255 (a full fragment): behind the outcome `length == 255` - or, the length
+    # being a byte of the buffer (0..255), `length > 254` and the like - with the variable unchanged since.  There `offset + 257`
+    # IS `offset + 2 + length`, and values are compared with 255 put for the length.
+    len_defs = [cfg.nodes[i] for i in A.kills.get(lenv, set()) if i in live]
+    len_is_byte = bool(len_defs) and all(lenv in A.assigned(d) and (AV.sole_atom(A.assigned(d)[lenv]) or ("",))[0] == "read" for d in len_defs if d.kind == "stmt" and d.ast is not None)
+    full_gate = []
+    for t in cfg.nodes:
+        if t.kind != "test" or t.id not in live:
+            continue
+        cp = compare_parts(t.exprs[0])
+        if cp is None:
+            continue
+        l_, op_, r_ = cp
+        lv_, rv_ = A.value(t, l_), A.value(t, r_)
+        k_ = AV.as_const(rv_)
+        if k_ is None:
+            k_, lv_ = AV.as_const(lv_), rv_
+            op_ = {"Lt": "Gt", "Gt": "Lt", "LtE": "GtE", "GtE": "LtE"}.get(op_, op_)
+        if k_ is None or lv_ != A.var(t, lenv):
+            continue
+        lab_ = {("Eq", 255): "T", ("NotEq", 255): "F"}.get((op_, k_))
+        if lab_ is None and len_is_byte:
+            lab_ = {("Gt", 254): "T", ("GtE", 255): "T", ("LtE", 254): "F", ("Lt", 255): "F"}.get((op_, k_))
+        if lab_ is not None:
+            full_gate += cfg.out_edges(t, (lab_,))
+    _full_memo: dict = {}
+
+    def full_at(n) -> bool:
+        if n.id in _full_memo:
+            return _full_memo[n.id]
+        res = bool(full_gate)
+        if res:
+            for s_ in sorted({cfg.entry.id} | A.kills.get(lenv, set())):
+                if s_ not in live:
+                    continue
+                for d, lab, exc in cfg.nodes[s_].succ:
+                    if (s_, d, lab, exc) in full_gate or lab == "x":
+                        continue
+                    if d == n.id or cfg.find_path(d, n.id, avoid_edges=full_gate) is not None:
+                        res = False
+        _full_memo[n.id] = res
+        return res
+
+    def at255(n, v):
+        """v with 255 put for the length variable / the length byte at the cursor, where that is known at n"""
+        if not full_at(n) or not (isinstance(v, tuple) and v and v[0] == "lin"):
+            return v
+        out = AV.const(v[2])
+        for a_, c_ in v[1]:
+            av = AV.atom(a_)
+            if av == L_at(n) or (L_at(n) == frag_len(n) and av == frag_len(n)):
+                out = AV.add(out, AV.const(255 * c_))
+            else:
+                out = AV.add(out, AV.scale(av, c_))
+        return out
+
     # ---- every indexed read of the buffer, classified by the value of its index at that point
     type_reads, peek_reads = [], []
     n_reads = 0
@@ -544,7 +629,7 @@ def _t1_iterator(ctx: Context) -> None:
                     type_reads.append((n, x))
                 elif idx == AV.add(O, AV.const(1)):
                     pass  # the length byte
-                elif idx == peek and L_at(n) == frag_len(n) or idx == next_start(n):
+                elif idx == peek and L_at(n) == frag_len(n) or idx == next_start(n) or (full_at(n) and L_at(n) == frag_len(n) and at255(n, idx) == at255(n, peek)):
                     peek_reads.append((n, x))
                 else:
                     judge(False, [idx, O, L_at(n)], "", "read-position",
@@ -675,6 +760,7 @@ def _t1_iterator(ctx: Context) -> None:
             move_nodes.append(n)
             in_step = L_at(n) == frag_len(n)
             ok = v == next_start(n) or (in_step and v == AV.add(AV.add(O, AV.const(2)), L_at(n)))
+            ok = ok or (in_step and full_at(n) and at255(n, v) == at255(n, AV.add(AV.add(O, AV.const(2)), L_at(n))))
             judge(ok, [v, O, L_at(n)], "the cursor moves by 2 + length byte of the fragment it is on (to the next fragment / item)", "advance",
                   f"tlv_iterator: the cursor moves to {AV.show(v)} where it is {AV.show(O)} and the length variable is {AV.show(L_at(n))}; the next TLV starts at "
                   "offset + 2 + (length byte of the fragment at offset)", loc)
@@ -721,7 +807,12 @@ def _t1_array(ctx: Context) -> None:
     oky = False
     if len(loops) == 1 and isinstance(loops[0].target, ast.Tuple) and len(loops[0].target.elts) == 4:
         o2 = _u(loops[0].target.elts[0])
-        starts = [x for x in walk_own(a.node) if isinstance(x, ast.Assign) and isinstance(x.targets[0], ast.Name) and src(x.value) in (f"{o2}+2", f"2+{o2}")]
+        def _plus2(v_):
+            # <offset> + 2 in any order, the 2 a literal or a named constant
+            return isinstance(v_, ast.BinOp) and isinstance(v_.op, ast.Add) and any(
+                _u(p_) == o2 and ctx.const(a, q_, None) == 2 and type(ctx.const(a, q_, None)) is int for p_, q_ in ((v_.left, v_.right), (v_.right, v_.left)))
+
+        starts = [x for x in walk_own(a.node) if isinstance(x, ast.Assign) and isinstance(x.targets[0], ast.Name) and _plus2(x.value)]
         if len(starts) == 1:
             sv = starts[0].targets[0].id
             oky = srcs == sorted([f"{abuf}[{sv}:{o2}]", f"{abuf}[{sv}:]"])
